@@ -24,7 +24,15 @@ func init() {
 			c.Decode(&p)
 			var res core.Result
 			if p["how"] == "sleep" {
-				time.Sleep(time.Hour)
+				// stuck, with the odd bit of background CPU use
+				for {
+					time.Sleep(2 * time.Second)
+					x := 0
+					for i := 0; i < 2000000; i++ {
+						x += i
+					}
+					_ = x
+				}
 			} else {
 				t0 := time.Now()
 				x := 0
